@@ -1240,3 +1240,51 @@ def _selftest(which):
 
 if __name__ == "__main__":
     sys.exit(_selftest(set(a.upper() for a in sys.argv[1:])))
+
+
+# ---------------------------------------------------------------- replay of recorded hits
+def _graph_from_json(j):
+    import networkx as nx
+    g = nx.Graph()
+    for a, d in j["nodes"]:
+        d = dict(d)
+        if "invariant_code" in d and isinstance(d["invariant_code"], list):
+            d["invariant_code"] = tuple(d["invariant_code"])
+        g.add_node(a, **d)
+    for e in j["edges"]:
+        g.add_edge(e[0], e[1], **(e[2] if len(e) > 2 and isinstance(e[2], dict) else {}))
+    return g
+
+
+def replay(run, model, rp):
+    """same contract as props.replay, for C14 / C15 / C16 replay files"""
+    hit = rp.get("hit") or {}
+    prop = rp.get("property")
+    case = hit.get("case") or {}
+    before = len(run.falsifier_hits)
+    if prop == "C15" and "family" in case:
+        res = dict(_run_pool([{"family": case["family"], "n": case["n"], "regen": True, "molfile": False}], workers=1)[0][1])
+        print(json.dumps({k: res.get(k) for k in ("exc", "stage", "msg", "atoms", "died")}, default=str)[:400])
+        bad = ("exc" in res and res.get("stage") not in ("write molfile", "read molfile")) or "died" in res
+        try:
+            k11_one(run, model, case["family"], case["n"])
+        except Exception as e:
+            print("k11:", type(e).__name__)
+        bad = bad or len(run.falsifier_hits) > before
+    elif prop == "C16" and "graph" in case:
+        perm_one(run, model, case.get("family", "replay"), _graph_from_json(case["graph"]), case["seed"])
+        bad = len([h for h in run.falsifier_hits[before:] if h["property"] == "C16"]) > 0
+    elif prop == "C14":
+        # a history / schedule: re-run the whole exploration with the recorded seed and tier
+        c14(run, model)
+        bad = len([h for h in run.falsifier_hits[before:] if h["property"] == "C14"]) > 0
+    else:
+        print("replay file names no replayable case:", json.dumps(rp.get("broken"))[:300])
+        return 1
+    for h in run.falsifier_hits[before:][:3]:
+        print(json.dumps(h, default=str)[:500])
+    if bad:
+        print("VIOLATION property=%s replay=%s" % (prop, "(replayed)"))
+        return 1
+    print("not reproduced")
+    return 0
